@@ -301,6 +301,26 @@ function battery(a, b, first) {
   return r.join("");
 }
 function lt(a,b){ return a<b ? 1 : 0 }
+function hx4(n){ return ("0000"+n.toString(16)).slice(-4); }
+function hx6(n){ return ("000000"+n.toString(16)).slice(-6); }
+// per-value observations compared with the SPEC (QuoteJSONString, code-point segmentation) by the orchestrator
+function obsq(s){ var q = JSON.stringify(s), h = ""; for (var i = 0; i < q.length; i++) h += hx4(q.charCodeAt(i));
+  if (JSON.stringify({[s]:0}) !== "{" + q + ":0}") return "MISMATCH:key-quote";
+  if (JSON.stringify([s]) !== "[" + q + "]") return "MISMATCH:array-quote";
+  return h; }
+function obscp(s){
+  var routes = {};
+  var a = []; for (var c of s) a.push(c.codePointAt(0)); routes["for-of"] = a;
+  routes["spread"] = [...s].map(function(x){ return x.codePointAt(0); });
+  routes["Array.from"] = Array.from(s, function(x){ return x.codePointAt(0); });
+  var it = s[Symbol.iterator](), d = [], r; while (!(r = it.next()).done) d.push(r.value.codePointAt(0)); routes["iterator"] = d;
+  var e = []; for (var i = 0; i < s.length; ) { var cp = s.codePointAt(i); e.push(cp); i += cp > 0xFFFF ? 2 : 1; } routes["codePointAt"] = e;
+  routes["regexp-u"] = (s.match(/[\s\S]/gu) || []).map(function(x){ return x.codePointAt(0); });
+  routes["split-u"] = s === "" ? [] : s.split(/(?:)/u).map(function(x){ return x.codePointAt(0); });
+  var ref = a.map(hx6).join("");
+  for (var k in routes) { var h = routes[k].map(hx6).join(""); if (h !== ref) return "MISMATCH:" + k + ":" + h + "/for-of:" + ref; }
+  return ref === "" ? "-" : ref;
+}
 `
 
 const nJSObs = 16
@@ -684,7 +704,21 @@ func pairLine(line string, wrap string, first int) string {
 	xa := hex.EncodeToString([]byte(fmt.Sprint(a.Export())))
 	xb := hex.EncodeToString([]byte(fmt.Sprint(b.Export())))
 	nf := b2s(nfOK(ta, a)) + b2s(nfOK(tb, b))
-	return fmt.Sprintf("%s %s %s %s js=%s go=%s lt=%v gt=%v cmp=%s nf=%s x1=%s x2=%s", ta, "u"+hexUnits(a), tb, "u"+hexUnits(b), js, gobits, ltv, gtv, sgn(a.CompareTo(b)), nf, "x"+xa, "x"+xb)
+	ob := func(fn string, v goja.String) string {
+		c = getCtx()
+		c.rt.Set("pv", v)
+		r, err := c.rt.RunString(fn + "(pv)")
+		if err != nil {
+			shared = nil
+			return "EXC:" + strings.ReplaceAll(common.OneLine(err.Error()), " ", "_")
+		}
+		if r.String() == "" {
+			return "-"
+		}
+		return r.String()
+	}
+	return fmt.Sprintf("%s %s %s %s js=%s go=%s lt=%v gt=%v cmp=%s nf=%s x1=%s x2=%s q1=%s q2=%s cp1=%s cp2=%s", ta, "u"+hexUnits(a), tb, "u"+hexUnits(b), js, gobits, ltv, gtv, sgn(a.CompareTo(b)), nf, "x"+xa, "x"+xb,
+		ob("obsq", a), ob("obsq", b), ob("obscp", a), ob("obscp", b))
 }
 
 // loop is common.Loop plus a per-case watchdog: a case that does not answer within the limit is answered
